@@ -29,7 +29,7 @@ from props import C03 as c3
 ID = 'C09'
 COQ_MODEL = 'model.History'
 COQ_CORR = 'corr_C09'
-N_QUICK = 350
+N_QUICK = 260
 N_THOROUGH = 1500
 VM_CASES = 25
 RULE = ('cases = corpus + random histories of 1..8 requests on one application (outcome classes: handler programs of '
@@ -247,48 +247,82 @@ def run_rule(case):
     return dict(owners=owners)
 
 
+def in_child(fn):
+    """run fn() in a forked child and return its JSON-able result.  The parent never serves a
+    request, so every child starts from the state of a process that has only imported ombott:
+    module-level and class-level objects (DefaultConfig.errors_map, caches) are pristine."""
+    import os
+    r, w = os.pipe()
+    pid = os.fork()
+    if pid == 0:
+        code = 0
+        try:
+            os.close(r)
+            try:
+                data = json.dumps(fn()).encode()
+            except BaseException as e:  # noqa
+                data = json.dumps({'child_error': '%s: %s' % (type(e).__name__, str(e)[:200])}).encode()
+            with os.fdopen(w, 'wb') as f:
+                f.write(data)
+        finally:
+            os._exit(code)
+    os.close(w)
+    try:
+        with os.fdopen(r, 'rb') as f:
+            data = f.read()
+    finally:
+        try:
+            os.kill(pid, 9)
+        except OSError:
+            pass
+        os.waitpid(pid, 0)
+    return json.loads(data) if data else {'child_error': 'no output'}
+
+
+def run_history(case):
+    import ombott.ombott as om
+    om.format_exc = lambda *a, **kw: c3.TB_TEXT
+    rec_box = [None]
+    streams = []
+    app = build_app(case, rec_box)
+    responses = [serve_one(app, r, rec_box, streams) for r in case['reqs']]
+    tbs = [tb_owners(e) for e in app.config.errors_map.values()]
+    gc.collect()
+    alive = sorted({w().rid for w in streams if w() is not None})
+    if case.get('retention'):
+        responses = responses[-1:]
+    return dict(responses=responses, tb=tbs, alive=alive)
+
+
+def run_fresh(case, r):
+    """the same request on a fresh application, in a fresh process, on a fresh thread"""
+    import ombott.ombott as om
+    om.format_exc = lambda *a, **kw: c3.TB_TEXT
+    box = [None]
+    fapp = build_app(case, box)
+    res = []
+    t = threading.Thread(target=lambda: res.append(serve_one(fapp, r, box, [])))
+    t.start()
+    t.join()
+    return res[0] if res else dict(events=[], escaped=True, problems=['thread died'])
+
+
 def run_impl(case):
     if case['kind'] == 'rule':
         return run_rule(case)
-    import ombott.ombott as om
-    saved = om.format_exc
-    om.format_exc = lambda *a, **kw: c3.TB_TEXT
-    try:
-        rec_box = [None]
-        streams = []
-        app = build_app(case, rec_box)
-        # DefaultConfig.errors_map is a class attribute: its HTTPError instances are shared by every
-        # application of the process; start from the state a fresh process has
-        for e in app.config.errors_map.values():
-            e.__traceback__ = None
-            e.__context__ = None
-        responses = [serve_one(app, r, rec_box, streams) for r in case['reqs']]
-        tbs = [tb_owners(e) for e in app.config.errors_map.values()]
-        gc.collect()
-        alive = sorted({w().rid for w in streams if w() is not None})
-        fresh = None
-        if not case.get('retention'):
-            fresh = []
-            for r in case['reqs']:
-                box = [None]
-                fapp = build_app(case, box)
-                res = []
-                t = threading.Thread(target=lambda: res.append(serve_one(fapp, r, box, [])))
-                t.start()
-                t.join()
-                fresh.append(res[0] if res else dict(events=[], escaped=True, problems=['thread died']))
-        return dict(responses=responses, tb=tbs, alive=alive, fresh=fresh)
-    finally:
-        om.format_exc = saved
+    import ombott  # noqa: the children inherit the imported, unused modules
+    obs = in_child(lambda: run_history(case))
+    if 'responses' not in obs:
+        return obs
+    obs['fresh'] = None
+    if not case.get('retention'):
+        obs['fresh'] = [in_child(lambda r=r: run_fresh(case, r)) for r in case['reqs']]
+    return obs
 
 
 def project(obs, case):
     if 'responses' not in obs:
         return obs
-    if case.get('retention'):
-        # a retention history repeats one request class: compare the last response only
-        return dict(responses=[dict(events=r['events'], escaped=r['escaped']) for r in obs['responses'][-1:]],
-                    tb=obs['tb'], alive=obs['alive'])
     return dict(responses=[dict(events=r['events'], escaped=r['escaped']) for r in obs['responses']],
                 tb=obs['tb'], alive=obs['alive'])
 
@@ -376,6 +410,8 @@ def oracle(case, obs):
         return 'harness failure: %s' % obs
     if obs['fresh'] is not None:
         for k, (a, b) in enumerate(zip(obs['responses'], obs['fresh'])):
+            if 'events' not in b:
+                return 'harness failure in the fresh process: %s' % b
             if a['escaped'] or b['escaped']:
                 return 'request %d: an exception escaped Ombott.__call__' % k
             if a['events'] != b['events']:
@@ -596,8 +632,18 @@ def shrink(case):
 PREDICATES = {}
 
 MANIFEST = dict(
-    text='(filled in when the theorems are in place)',
-    note='',
+    text=('Proof: theorems in coq/props/C09.v (Coq, closed under the global context) about coq/model/History.v (on top of '
+          'the C03 model): C09_history_independent — for ALL applications (what hooks/handlers do = arbitrary function of the '
+          'current request and of the response object as handed over; arbitrary error handlers), ALL pairs of thread states '
+          'and ALL requests (decodable or not, any outcome class of the C03 grammar incl. raises of shared errors_map '
+          'entries) the observable response is the same; C09_history_equals_fresh (every response of every history = fresh '
+          'application); C09_retention_bounded — after ANY history at most 1 + |errors_map| requests are alive. The pre-fix '
+          'code is kept as variants: C09_F11_bad_path_carryover_refuted, C09_F12_retention_refuted (unbounded). Tied to /repo '
+          'by a history correspondence (event traces, traceback owners of the shared errors, weak-reference liveness) and an '
+          'oracle comparing every request with a fresh application in a fresh process on a fresh thread.'),
+    note=('Partial by nature: CPython reference counting/gc and the traceback mechanics are runtime assumptions, written '
+          'into the model (raise_shared / raise_shared_F12) and checked by the correspondence incl. a framework-free '
+          'experiment; hook-list edits persisting across requests and handler-owned state are outside the model.'),
     technique='Coq proof (explicit per-thread state, every read preceded by this request\'s write) + history correspondence',
     design_ref='DESIGN.md section 4, C09',
 )
